@@ -78,8 +78,13 @@ def _check(sub, doc, q, acc, record=True, only_loc=None):
     except Exception as e:  # noqa: BLE001
         acc.violation(sub, "query-failed", {"doc": doc, "q": q, "text": text}, expected="evaluates", observed="%s: %s" % (type(e).__name__, e))
         return
-    for m in matches:
-        loc = tuple(m.parts)
+    exp_nodes = rpath.nodelist(q, snapshot)
+    if len(exp_nodes) != len(matches):
+        acc.violation(sub, "match-count", {"doc": snapshot, "q": q, "text": text}, expected=len(exp_nodes), observed=len(matches))
+        return
+    for m, (loc, _val) in zip(matches, exp_nodes):
+        # the location is the reference evaluator's, not the implementation's own parts: the property says the patch
+        # "behaves as if the match's location had been addressed directly"
         if only_loc is not None and list(loc) != only_loc:
             continue
         toks = rptr.loc_tokens(loc)
